@@ -240,6 +240,39 @@ theorem C16_pool_fd_reuse_counterexample :
       [some .eof, some (.reply .pong)] ∧
     ((run (init { kind := .pool, auth := false, nb := 2, spare := false }) reuse).cli 3).discHooks = 1 := by decide
 
+/-! ### errors from `accept()` (`C16:accept-error-closes-server`, repaired) -/
+
+/-- **the obligation**: the code's accept loop survives an error from `accept()` that is neither EINTR / EAGAIN nor the
+listener being gone - measured on the live `Server.accept` on every run (`harness/gen_server.py`: a listener stand-in that
+fails once with EMFILE, once with ECONNABORTED); on a tree that turns such an error into EOFError this fails -/
+theorem accept_survives_transient_errors : Gen.Srv.acceptSurvivesTransientError = true := by decide
+
+/-- with it, after ANY history of client actions an error from `accept()` - the process out of descriptors because a client
+opened connections up to the limit, a connection aborted while it was being set up - changes nothing at all: same server,
+same accept loop, same clients (threaded and forking servers; `run_ignores_accept_faults`: hence every run-level theorem
+holds for runs with such errors interleaved anywhere) -/
+theorem accept_fault_changes_nothing (cfg : Cfg) (hk : cfg.kind = .threaded ∨ cfg.kind = .forking)
+    (ht : cfg.acceptTough = true) (ops : List Op) (hops : ∀ op ∈ ops, op.c16 = true) :
+    step (run (init cfg) ops) .acceptFault = .ok (run (init cfg) ops, .none) :=
+  accept_fault_harmless _ (by rw [run_cfg]; exact ht) (accept_survives cfg hk ops hops).canAccept
+
+/-- the same for the pool, as long as nobody stalls its authentication (then the accept thread is not in `accept()`) -/
+theorem accept_fault_changes_nothing_pool (cfg : Cfg) (hk : cfg.kind = .pool) (ht : cfg.acceptTough = true)
+    (ops : List Op) (hops : ∀ op ∈ ops, op.c16 = true) (hns : ∀ op ∈ ops, ∀ k, op ≠ .connect k .silent) :
+    step (run (init cfg) ops) .acceptFault = .ok (run (init cfg) ops, .none) :=
+  accept_fault_harmless _ (by rw [run_cfg]; exact ht) (accept_survives_pool cfg hk ops hops hns).canAccept
+
+/-- **C16_accept_fault_counterexample**: the code that takes the error for the end of the server (`acceptTough := false`)
+closes itself - listener gone, the well-behaved client that was being served gets end-of-stream; the repaired code goes
+on serving it -/
+theorem C16_accept_fault_counterexample :
+    runObs (init { kind := .threaded, auth := false, nb := 1, acceptTough := false })
+      [.connect 1 .good, .call 1 .ping, .acceptFault, .call 1 .ping, .connect 2 .good] =
+      [some .ok, some (.reply .pong), some .none, some .eof, some .refused] ∧
+    runObs (init { kind := .threaded, auth := false, nb := 1, acceptTough := true })
+      [.connect 1 .good, .call 1 .ping, .acceptFault, .call 1 .ping, .connect 2 .good] =
+      [some .ok, some (.reply .pong), some .none, some (.reply .pong), some .ok] := by decide
+
 /-- everything the property says: in full for the threaded and forking servers; isolation for every kind; for the pool
 under the two hypotheses the counterexamples show to be necessary -/
 theorem C16_partial (cfg : Cfg) :
